@@ -4,7 +4,7 @@ import ast
 from ..framework import rule
 from ..astutil import dotted, call_name, call_recv, norm, walk_local, unparse, ancestors
 from .. import q
-from .common import assigned_value, kw, arg, enclosing_for
+from .common import source_changed_guards, assigned_value, kw, arg, enclosing_for
 from . import c08, c09, c07   # C08.R3, C09.R2 and C07.R2 (instances discarded on member edits) are listed for C02 too
 
 META = {
@@ -66,10 +66,11 @@ def r1(ctx, R):
     R.inst("UserCellsImpl.reload: changed source -> clear_obj(self) and altfunc.notify()")
     co = q.calls(rl, name="clear_obj")
     nt = q.calls(rl, name="notify", recv="self.altfunc")
-    if not co or ("oldsrc != newsrc", "T") not in q.guards_of(rl, co[0]):
+    chg = source_changed_guards(rl)
+    if not co or not any((t, "T") in q.guards_of(rl, co[0]) for t in chg):
         R.bad(rl, rl.node, "reloaded cells keeps its values", stmt="clear_obj")
-    if not nt or q.guards_of(rl, nt[0]) - q.guards_of(rl, co[0] if co else rl.node) or \
-            not [s for s in [1] if nt and q.guards_of(rl, nt[0]) <= {("oldsrc != newsrc", "T")}]:
+    if not nt or set(q.guards_of(rl, nt[0])) - set(q.guards_of(rl, co[0] if co else rl.node)) or \
+            not all(l == "T" and t in chg for t, l in q.guards_of(rl, nt[0])):
         R.bad(rl, rl.node, "reload() updates formula.source but the cells keeps executing the old function",
               stmt="altfunc.notify()")
     # space rename
